@@ -412,7 +412,8 @@ def cli_run(argv, stdin_text, cwd):
 
 
 GOOD = ['(a / alpha :ARG0 (b / beta))', '(c / chapter :mod 7)']
-BAD = ['(a / alpha :foo (b / beta))', '(a / alpha :ARG0 b :bar 1)']
+# B0/B1: role errors; B2: only a graph-level error (empty node: the top is not set)
+BAD = ['(a / alpha :foo (b / beta))', '(a / alpha :ARG0 b :bar 1)', '()']
 
 
 @check('C16.cli')
@@ -447,7 +448,7 @@ def c16_cli(args):
         for c, g in zip(seq, gs):
             errs = [k for k in g.metadata if k.startswith('error-')]
             src = penman.decode(GOOD[int(c[1])] if c[0] == 'G' else BAD[int(c[1])], model=m)
-            exp = m.errors(src)
+            exp = ref_errors(m, src)
             nexp = len(exp)
             if len(errs) != nexp:
                 return 'graph %s: %d error-N entries, expected %d' % (c, len(errs), nexp)
@@ -484,7 +485,8 @@ def run_C16(R):
              [['G0', 'B0'], ['G1']], [['B0', 'G0']], [['G0', 'B0']], [['G0']], [['B1']],
              [['B0'], ['G0'], ['G1']], [['G0'], ['B1'], ['G1']], [['G0'], ['G1'], ['B0']], [[], ['B0']],
              [['B0'], []], [['B0', 'B1']], [['B1', 'G0', 'B0']], [['G0', 'B0', 'B1', 'G1']],
-             [['B0', 'B0'], ['B1']]]
+             [['B0', 'B0'], ['B1']], [['B2']], [['G0', 'B2', 'G1']], [['G0'], ['B2']], [['B2'], ['G0']],
+             [['B0', 'B2']]]
     if not R.quick:
         for k in (2, 3):
             for combo in itertools.product(units, repeat=k):
